@@ -559,7 +559,7 @@ def has_digit_hazard(tok):
 #       | "inv"  (--no-x)          | "rep"/"stack" (counter: -v -v / -vv)
 #       | "next" (flag value)      | "eq" (flag=value) | "glued" (-xvalue) | "pos" (value alone)
 # VALUE = {"b": bool} | {"n": count} | {"s": text} | {"t": True}
-PLAIN_VALUES = ["abc", "x1", "v", "hello", "a b", "1.5", "Z"]
+PLAIN_VALUES = ["abc", "x1", "v", "hello", "a b", "1.5", "Z", "k=v", "a=b=c"]
 INT_VALUES = ["5", "42", "0", "7"]
 
 
@@ -824,6 +824,8 @@ def expected_calls(specs, inv):
         vals = {}
         for i, a in enumerate(c["args"]):
             vals[i] = a["default"]
+            if a["kind"] == "KList" and not isinstance(a["default"], list) and not a["incrementable"]:
+                vals[i] = []
         lists = {}
         for o in flat_occs(call["occs"]):
             a = c["args"][o["arg"]]
@@ -856,3 +858,52 @@ def expected_calls(specs, inv):
             kw.append([nm, v])
         out.append([c["name"], kw])
     return out
+
+
+WILD_VALUES = ["abc", "-x", "--zz", "-xyz", "-", "--", "", "5", "-5", "k=v", "=v", "a b", "--no-x"]
+
+
+def gen_wild_invocation(rng, specs, max_calls=3):
+    """occurrences with arbitrary forms/values/order: probes the boundary of the
+    side condition (most of these are inadmissible; the Coq [admissible] decides)"""
+    words = []
+    for s in specs:
+        words.append(s["name"])
+        words.extend(s["aliases"])
+    calls = []
+    for _ in range(rng.choice([1, 1, 2, 3][:1 + max_calls])):
+        ci = rng.randrange(len(specs))
+        c = specs[ci]
+        occs = []
+        for i, a in enumerate(c["args"]):
+            if rng.random() < 0.45:
+                continue
+            for _ in range(rng.choice([1, 1, 1, 2])):
+                k = rng.randrange(len(a["names"]))
+                sk = short_index(a)
+                if a["incrementable"]:
+                    form = rng.choice(["rep", "stack"]) if sk is not None else "rep"
+                    occs.append({"arg": i, "name": sk if form == "stack" else k, "form": form,
+                                 "val": {"n": rng.randint(1, 3)}})
+                elif not takes_value(a):
+                    if a["kind"] == "KBool" and a["default"] is True and rng.random() < 0.6:
+                        occs.append({"arg": i, "name": 0, "form": "inv", "val": {"b": False}})
+                    else:
+                        occs.append({"arg": i, "name": k, "form": "bare", "val": {"b": True}})
+                else:
+                    if a["optional"] and rng.random() < 0.4:
+                        occs.append({"arg": i, "name": k, "form": "bare", "val": {"t": True}})
+                        continue
+                    if a["kind"] == "KInt":
+                        v = rng.choice(INT_VALUES + ["-3", "+4", "abc", ""])
+                    else:
+                        v = rng.choice(WILD_VALUES + PLAIN_VALUES + words[:3])
+                    forms = ["next", "eq"] + (["glued"] if sk is not None else []) + \
+                        (["pos", "pos"] if a["positional"] else [])
+                    form = rng.choice(forms)
+                    occs.append({"arg": i, "name": sk if form == "glued" else k, "form": form, "val": {"s": v}})
+        rng.shuffle(occs)
+        if rng.random() < 0.5:
+            occs = cluster_pass(rng, c, occs, p=0.8)
+        calls.append({"task": ci, "as": rng.choice([c["name"]] + c["aliases"]), "occs": occs})
+    return calls
